@@ -128,16 +128,16 @@ Definition close_early (st : state) : state := set_closed (set_clients st []) tr
 Definition close_finish (st0 st' : state) : state :=
   if negb (s_closed st0) && s_closed st' then reset_all st' else st'.
 
-(* ---- _update_brokers: client.py:956-987 -------------------------------------------------------- *)
-(* 973: brokers_by_id = {bm.node_id: bm for bm in brokers} *)
+(* ---- _update_brokers: client.py:963-994 -------------------------------------------------------- *)
+(* 980: brokers_by_id = {bm.node_id: bm for bm in brokers} *)
 Definition by_id (bs : list bmeta) : list (Z * addr) :=
   fold_left (fun d b => dset Z.eqb (fst b) (snd b) d) bs [].
 
-(* 974: self._brokers.update(brokers_by_id) *)
+(* 981: self._brokers.update(brokers_by_id) *)
 Definition dupdate (d : list (Z * addr)) (u : list (Z * addr)) : list (Z * addr) :=
   fold_left (fun d e => dset Z.eqb (fst e) (snd e) d) u d.
 
-(* 977-980: clients that exist get updateMetadata (brokerclient.py:148-165: host/port of FUTURE
+(* 984-987: clients that exist get updateMetadata (brokerclient.py:148-165: host/port of FUTURE
    connections; the live connection is kept) *)
 Definition retarget (bid : list (Z * addr)) (c : Z * client) : Z * client :=
   match dget Z.eqb (fst c) bid with
@@ -145,7 +145,7 @@ Definition retarget (bid : list (Z * addr)) (c : Z * client) : Z * client :=
   | None => c
   end.
 
-(* returns the new state and the node ids whose broker client was closed (983-987) *)
+(* returns the new state and the node ids whose broker client was closed (990-994) *)
 Definition update_brokers (st : state) (bs : list bmeta) (remove : bool) : state * list Z :=
   let bid := by_id bs in
   let st1 := set_brokers st (dupdate (s_brokers st) bid) in
@@ -160,7 +160,7 @@ Definition update_brokers (st : state) (bs : list bmeta) (remove : bool) : state
 Record rawtopic := { rt_err : Z; rt_id : Z; rt_parts : list (Z * Z * Z) (* perr, partition, leader *) }.
 Record rawresp := { rr_brokers : list bmeta; rr_topics : list rawtopic }.
 
-(* decoded: three nested dicts (805-810, 814-837): the last entry for a key wins, at the position of the
+(* decoded: three nested dicts (806-811, 821-844): the last entry for a key wins, at the position of the
    first.  The partition error code is dropped here because nothing in client.py reads it. *)
 Record nresp := {
   n_brokers : list (Z * addr);                   (* node -> address *)
@@ -231,7 +231,7 @@ Definition merge (st : state) (nr : nresp) (full : bool) : state * list Z * bool
 Definition coord_ok (st : state) (g : Z) (bm : bmeta) : state :=
   fst (update_brokers (set_g2c st (dset Z.eqb g bm (s_g2c st))) [bm] false).
 
-(* ---- _handle_responses: client.py:862-895 ------------------------------------------------------ *)
+(* ---- _handle_responses: client.py:869-902 ------------------------------------------------------ *)
 (* a decoded per-partition response: topic, partition, error code, tag (whatever else it carries) *)
 Record resp := { r_topic : Z; r_part : Z; r_err : Z; r_tag : Z }.
 Definition r_key (r : resp) : tpk := (r_topic r, r_part r).
@@ -241,8 +241,8 @@ Inductive hres :=
 | HRaise (errno : Z)        (* fail_on_error: the BrokerResponseError subclass for this errno *)
 | HType.                    (* reset_consumer_group_metadata(None): _coerce_consumer_group raises TypeError *)
 
-Definition is_topic_err (e : Z) : bool := (e =? 3) || (e =? 6).               (* 867 *)
-Definition is_group_err (e : Z) : bool := (e =? 14) || (e =? 15) || (e =? 16). (* 877 *)
+Definition is_topic_err (e : Z) : bool := (e =? 3) || (e =? 6).               (* 874 *)
+Definition is_group_err (e : Z) : bool := (e =? 14) || (e =? 15) || (e =? 16). (* 884 *)
 
 Fixpoint handle_responses (st : state) (group : option Z) (fail : bool) (rs : list resp) (out : list resp)
   : state * hres :=
@@ -252,11 +252,11 @@ Fixpoint handle_responses (st : state) (group : option Z) (fail : bool) (rs : li
       let e := r_err r in
       if e =? 0 then handle_responses st group fail rest (r :: out)
       else if is_topic_err e then
-        let st1 := reset_topic st (r_topic r) in                          (* 874 *)
+        let st1 := reset_topic st (r_topic r) in                          (* 881 *)
         if fail then (st1, HRaise e) else handle_responses st1 group fail rest (r :: out)
       else if is_group_err e then
         match group with
-        | None => (st, HType)                                             (* 884 with consumer_group=None *)
+        | None => (st, HType)                                             (* 891 with consumer_group=None *)
         | Some g =>
             let st1 := reset_group st g in
             if fail then (st1, HRaise e) else handle_responses st1 group fail rest (r :: out)
@@ -264,7 +264,7 @@ Fixpoint handle_responses (st : state) (group : option Z) (fail : bool) (rs : li
       else if fail then (st, HRaise e) else handle_responses st group fail rest (r :: out)
   end.
 
-(* ---- broker clients: client.py:897-917, brokerclient.py:167-246, 414-461 ------------------------ *)
+(* ---- broker clients: client.py:904-924, brokerclient.py:167-246, 414-461 ------------------------ *)
 (* _get_brokerclient without the _closing test (callers do it).  None = KeyError self._brokers[node_id] *)
 Definition get_client (st : state) (n : Z) : option state :=
   if dmem Z.eqb n (s_clients st) then Some st
@@ -303,7 +303,7 @@ Definition drop_conn (st : state) (n : Z) : state :=
 Definition connected (st : state) (n : Z) : bool :=
   match dget Z.eqb n (s_clients st) with
   | Some c => match c_conn c with Some _ => true | None => false end
-  | None => false                                                          (* client.py:1131 KeyError *)
+  | None => false                                                          (* client.py:1140 KeyError *)
   end.
 
 (* ---- invariant of reachable states -------------------------------------------------------------- *)
